@@ -227,6 +227,15 @@ func NormalizeOracle(raw string, parsed *url.URL, err error) string {
 	return "[" + strings.Join(items, "; ") + "]"
 }
 
+// LocalOracle is the oracle NormalizeOracle prints for a raw string without
+// ':' whose normalization is n (and n is a fixed point).
+func LocalOracle(raw, n string) string {
+	if raw == n {
+		return "[(" + bstr.B(n) + ", Some " + bstr.B(n) + ")]"
+	}
+	return "[(" + bstr.B(raw) + ", Some " + bstr.B(n) + "); (" + bstr.B(n) + ", Some " + bstr.B(n) + ")]"
+}
+
 // ---------------------------------------------------------------- replay form
 
 // JURL is the JSON form of a URL value.
